@@ -324,6 +324,7 @@ fn c18_cross_task_move() {
         let drop_under: u8 = kani::any();
         kani::assume(drop_under < 3);
         let deliver_in_b: bool = kani::any();
+        let partial_in_a: bool = kani::any();
         let delivered: u32 = kani::any();
         reset(BLOCKED, any_code_not_blocked());
         let mut task_a = host::mock_task(0, true);
@@ -335,6 +336,14 @@ fn c18_cross_task_move() {
             host::enter_task(&mut task_a);
             vassert!(op.as_mut().poll_complete(&mut cx).is_pending());
             vassert!(host::entry_of(0, W).is_some() && host::entry_of(1, W).is_none());
+            if partial_in_a {
+                // partial progress: task A delivers a non-final status, the operation is polled again under A and
+                // re-registers with the task it already holds; only then does it move
+                vassert!(unsafe { host::deliver(0, W, BLOCKED) });
+                vassert!(host::entry_of(0, W).is_none());
+                vassert!(op.as_mut().poll_complete(&mut cx).is_pending());
+                vassert!(host::entry_of(0, W).is_some() && host::registrations(W) == 1, "C18: still waiting after partial progress => registered again");
+            }
             host::enter_task(&mut task_b);
             vassert!(op.as_mut().poll_complete(&mut cx).is_pending());
             vassert!(host::entry_of(0, W).is_none(), "C18: moving to another task must unregister from the previous one");
@@ -353,6 +362,7 @@ fn c18_cross_task_move() {
         vassert!(!log().cancel_while_registered, "C18: cancelled while still registered with a task");
         kani::cover!(deliver_in_b && delivered == BLOCKED);
         kani::cover!(!deliver_in_b && drop_under == 2);
+        kani::cover!(partial_in_a && deliver_in_b);
     }
 }}
 
